@@ -1,6 +1,564 @@
-//! C05: the metamorphic matrix (filled in below).
-use std::path::Path;
-pub fn main_c05(_out: &Path, _tier: &str, _seed: u64) {
-    eprintln!("c05 mode not built yet");
-    std::process::exit(2);
+//! C05: observable behaviour is invariant under optimisation / lowering configuration.
+//! The metamorphic matrix on the real pipeline: every (program, input) is compiled and run under
+//! several configurations; values and panic data must be identical (gas and steps are not compared).
+//!
+//! Legs:
+//!   gen       typed random programs of the C01 generator (the reference result is known too)
+//!   examples  /repo/examples: every function whose parameters are felt-sized scalars and whose
+//!             result holds no pointer, on small argument vectors
+//!   tests     `#[test]` functions of /repo/tests/bug_samples (and, thorough tier, of the core
+//!             library): raw run result of each test, with ample gas
+use std::collections::BTreeMap;
+use std::path::{Path, PathBuf};
+
+use cairo_lang_compiler::db::RootDatabase;
+use cairo_lang_compiler::diagnostics::DiagnosticsReporter;
+use cairo_lang_compiler::project::setup_project;
+use cairo_lang_filesystem::cfg::{Cfg, CfgSet};
+use cairo_lang_filesystem::db::init_dev_corelib;
+use cairo_lang_filesystem::flag::{Flag, FlagsGroup};
+use cairo_lang_filesystem::ids::FlagLongId;
+use cairo_lang_lowering::optimizations::config::Optimizations;
+use cairo_lang_lowering::utils::InliningStrategy;
+use cairo_lang_runner::{Arg, RunResultValue, SierraCasmRunner, StarknetState};
+use cairo_lang_sierra::program::{GenericArg, Program as SierraProgram};
+use cairo_lang_sierra_to_casm::metadata::MetadataComputationConfig;
+use cairo_lang_starknet::starknet_plugin_suite;
+use cairo_lang_test_plugin::{TestsCompilationConfig, compile_test_prepared_db, test_plugin_suite};
+use cairo_vm::vm::runners::cairo_runner::RunResources;
+use num_bigint::BigInt;
+use starknet_types_core::felt::Felt as Felt252;
+
+use crate::ast::Val;
+use crate::interp::{Interp, Outcome};
+use crate::run::{self, Config, Obs, OptKind, Solver};
+
+pub fn matrix(tier: &str) -> Vec<Config> {
+    let c = |opt, skip, thr, gas| Config { opt, skip_const_folding: skip, match_threshold: thr, gas };
+    let mut m = vec![
+        // the reference point: what cairo-run does
+        c(OptKind::Default, false, None, None),
+        c(OptKind::Disabled, false, None, None),
+        c(OptKind::Avoid, true, Some(2), None),
+        c(OptKind::Small(100_000), false, Some(0), None),
+        c(OptKind::Default, true, Some(100), Some(Solver::Linear)),
+        c(OptKind::Disabled, false, None, Some(Solver::Linear)),
+        c(OptKind::Default, false, None, Some(Solver::NonLinear)),
+    ];
+    if tier == "thorough" {
+        m.extend([
+            c(OptKind::Disabled, false, Some(2), Some(Solver::Linear)),
+            c(OptKind::Disabled, false, None, Some(Solver::NonLinear)),
+            c(OptKind::Avoid, false, None, None),
+            c(OptKind::Avoid, false, Some(0), Some(Solver::NonLinear)),
+            c(OptKind::Small(0), false, None, None),
+            c(OptKind::Small(0), true, Some(3), Some(Solver::Linear)),
+            c(OptKind::Small(30), false, Some(100), None),
+            c(OptKind::Small(30), true, None, Some(Solver::NonLinear)),
+            c(OptKind::Small(100_000), true, None, Some(Solver::Linear)),
+            c(OptKind::Small(100_000), false, Some(2), Some(Solver::NonLinear)),
+            c(OptKind::Default, true, None, None),
+            c(OptKind::Default, false, Some(2), None),
+        ]);
+    }
+    m
+}
+
+/// (item name, argument cells, result) under one configuration
+type Results = BTreeMap<(String, Vec<BigInt>), Obs>;
+
+struct LegRun {
+    cfg: Config,
+    results: Result<Results, String>,
+    secs: f64,
+}
+
+// ------------------------------------------------------------------------------------------
+// leg "gen"
+fn leg_gen(out: &Path, cfg: &Config, k: usize, progs: &[crate::ast::Program], vectors: &[Vec<Vec<Val>>]) -> Result<Results, String> {
+    let mut rejected = vec![];
+    let dir = out.join("src");
+    let (compiled, alive) = crate::compile_programs(&dir, &format!("c05_gen_cfg{k}"), progs, cfg, &mut rejected)?;
+    if !rejected.is_empty() {
+        return Err(format!(
+            "configuration {} rejects {} generated program(s): {}",
+            cfg.name(),
+            rejected.len(),
+            rejected[0].1
+        ));
+    }
+    let mut res = Results::new();
+    for pi in alive {
+        let p = &progs[pi];
+        let fname = format!("::{}", p.fn_name(p.entry()));
+        for args in &vectors[pi] {
+            let mut cells = vec![];
+            for a in args {
+                a.flatten(&mut cells);
+            }
+            let obs = run::run(&compiled, &fname, &cells);
+            res.insert((fname.clone(), cells), obs);
+        }
+    }
+    Ok(res)
+}
+
+// ------------------------------------------------------------------------------------------
+// leg "examples": discovery of runnable functions from the Sierra signatures
+fn type_map(p: &SierraProgram) -> BTreeMap<u64, (String, Vec<GenericArg>)> {
+    p.type_declarations
+        .iter()
+        .map(|d| (d.id.id, (d.long_id.generic_id.0.to_string(), d.long_id.generic_args.clone())))
+        .collect()
+}
+const SCALARS: [&str; 11] = ["felt252", "u8", "u16", "u32", "u64", "u128", "i8", "i16", "i32", "i64", "i128"];
+const IMPLICITS: [&str; 14] = [
+    "RangeCheck",
+    "GasBuiltin",
+    "Pedersen",
+    "Bitwise",
+    "EcOp",
+    "Poseidon",
+    "SegmentArena",
+    "System",
+    "BuiltinCosts",
+    "RangeCheck96",
+    "AddMod",
+    "MulMod",
+    "Blake",
+    "QM31",
+];
+fn pointer_free(tm: &BTreeMap<u64, (String, Vec<GenericArg>)>, id: u64, depth: u32) -> bool {
+    if depth > 12 {
+        return false;
+    }
+    let Some((g, args)) = tm.get(&id) else { return false };
+    let g = g.as_str();
+    if SCALARS.contains(&g) || g == "BoundedInt" {
+        return true;
+    }
+    if matches!(g, "Struct" | "Enum" | "NonZero" | "Snapshot") {
+        return args.iter().all(|a| match a {
+            GenericArg::Type(t) => pointer_free(tm, t.id, depth + 1),
+            _ => true,
+        });
+    }
+    false
+}
+/// The result type with the panic wrapper removed, if pointer free.
+fn result_ok(tm: &BTreeMap<u64, (String, Vec<GenericArg>)>, id: u64) -> bool {
+    let Some((g, args)) = tm.get(&id) else { return false };
+    if g == "Enum" {
+        if let Some(GenericArg::UserType(ut)) = args.first() {
+            if ut.debug_name.as_ref().map(|n| n.starts_with("core::panics::PanicResult::")).unwrap_or(false) {
+                return match args.get(1) {
+                    Some(GenericArg::Type(t)) => pointer_free(tm, t.id, 0),
+                    _ => false,
+                };
+            }
+        }
+    }
+    pointer_free(tm, id, 0)
+}
+
+const EXAMPLE_VECTORS: [[u64; 4]; 7] =
+    [[1, 1, 7, 2], [0, 1, 9, 1], [2, 3, 5, 3], [1, 1, 200, 1], [5, 4, 3, 2], [0, 0, 0, 0], [3, 1, 1, 6]];
+
+fn leg_examples(cfg: &Config) -> Result<Results, String> {
+    let mut db = run::build_db(cfg);
+    let (sierra, compiled) = run::compile_with_program(&mut db, Path::new("/repo/examples"), cfg)
+        .map_err(|e| format!("examples do not compile under {}: {e:?}", cfg.name()))?;
+    let tm = type_map(&sierra);
+    let mut res = Results::new();
+    for f in &sierra.funcs {
+        let name = f.id.debug_name.as_ref().map(|s| s.to_string()).unwrap_or_default();
+        if !name.starts_with("examples::") || name.contains('[') || name.contains('<') || name.contains('{') {
+            continue;
+        }
+        // user parameters: everything that is not an implicit
+        let mut user = vec![];
+        let mut ok = true;
+        for t in &f.signature.param_types {
+            let Some((g, _)) = tm.get(&t.id) else {
+                ok = false;
+                break;
+            };
+            if IMPLICITS.contains(&g.as_str()) {
+                continue;
+            }
+            if SCALARS.contains(&g.as_str()) {
+                user.push(g.clone());
+            } else {
+                ok = false;
+                break;
+            }
+        }
+        let rets: Vec<u64> = f
+            .signature
+            .ret_types
+            .iter()
+            .filter(|t| tm.get(&t.id).map(|(g, _)| !IMPLICITS.contains(&g.as_str())).unwrap_or(true))
+            .map(|t| t.id)
+            .collect();
+        if !ok || rets.len() > 1 || !rets.iter().all(|r| result_ok(&tm, *r)) || user.len() > 4 {
+            continue;
+        }
+        let vectors: Vec<Vec<BigInt>> = if user.is_empty() {
+            vec![vec![]]
+        } else {
+            EXAMPLE_VECTORS.iter().map(|v| v[..user.len()].iter().map(|x| BigInt::from(*x)).collect()).collect()
+        };
+        for cells in vectors {
+            let obs = run::run(&compiled, &name, &cells);
+            res.insert((name.clone(), cells), obs);
+        }
+    }
+    Ok(res)
+}
+
+// ------------------------------------------------------------------------------------------
+// leg "tests": the #[test] functions of a crate directory
+fn build_test_db(cfg: &Config) -> RootDatabase {
+    let mut b = RootDatabase::builder();
+    let mut cfgset = CfgSet::from_iter([Cfg::name("test"), Cfg::kv("target", "test")]);
+    if cfg.gas.is_none() {
+        cfgset.insert(Cfg::kv("gas", "disabled"));
+        b.skip_auto_withdraw_gas();
+    }
+    b.with_cfg(cfgset);
+    b.with_default_plugin_suite(test_plugin_suite());
+    b.with_default_plugin_suite(starknet_plugin_suite());
+    let enabled = |s: InliningStrategy| match Optimizations::enabled_with_default_movable_functions(s) {
+        Optimizations::Enabled(c) => Optimizations::Enabled(c.with_skip_const_folding(cfg.skip_const_folding)),
+        o => o,
+    };
+    b.with_optimizations(match cfg.opt {
+        OptKind::Disabled => Optimizations::Disabled,
+        OptKind::Default => enabled(InliningStrategy::Default),
+        OptKind::Avoid => enabled(InliningStrategy::Avoid),
+        OptKind::Small(k) => enabled(InliningStrategy::InlineSmallFunctions(k)),
+    });
+    let mut db = b.build().expect("RootDatabase");
+    init_dev_corelib(&mut db, PathBuf::from(run::CORELIB));
+    if let Some(k) = cfg.match_threshold {
+        db.set_flag(
+            FlagLongId(Flag::NUMERIC_MATCH_OPTIMIZATION_MIN_ARMS_THRESHOLD.into()),
+            Some(Flag::NumericMatchOptimizationMinArmsThreshold(k)),
+        );
+    }
+    db
+}
+
+/// tests whose result legitimately depends on the amount of gas spent (they read the gas counter)
+fn gas_observing(name: &str) -> bool {
+    name.contains("gas") || name.contains("Gas")
+}
+
+fn leg_tests(cfg: &Config, path: &str, prefix: &str) -> Result<Results, String> {
+    let mut db = build_test_db(cfg);
+    let inputs = setup_project(&mut db, Path::new(path)).map_err(|e| format!("setup_project({path}): {e:?}"))?;
+    let mut diag = String::new();
+    let compiled = vcommon::catch(std::panic::AssertUnwindSafe(|| {
+        compile_test_prepared_db(
+            &db,
+            TestsCompilationConfig {
+                starknet: true,
+                add_statements_functions: false,
+                add_statements_code_locations: false,
+                contract_declarations: None,
+                contract_crate_ids: None,
+                executable_crate_ids: None,
+                add_functions_debug_info: false,
+                add_type_names: false,
+                replace_ids: false,
+            },
+            inputs.clone(),
+            DiagnosticsReporter::write_to_string(&mut diag).with_crates(&inputs).allow_warnings(),
+        )
+    }))
+    .map_err(|e| format!("compiler panicked on {path} under {}: {e} at {}", cfg.name(), vcommon::last_panic_location()))?
+    .map_err(|e| format!("{path} does not compile under {}: {e:?}", cfg.name()))?;
+    let meta = cfg.gas.map(|s| MetadataComputationConfig {
+        function_set_costs: compiled.metadata.function_set_costs.clone(),
+        linear_gas_solver: s == Solver::Linear,
+        linear_ap_change_solver: s == Solver::Linear,
+        skip_non_linear_solver_comparisons: s == Solver::NonLinear,
+        compute_runtime_costs: false,
+    });
+    let runner = vcommon::catch(std::panic::AssertUnwindSafe(|| {
+        SierraCasmRunner::new(
+            compiled.sierra_program.program.clone(),
+            meta,
+            compiled.metadata.contracts_info.clone(),
+            None,
+        )
+    }))
+    .map_err(|e| format!("runner set-up panicked under {}: {e} at {}", cfg.name(), vcommon::last_panic_location()))?
+    .map_err(|e| format!("runner under {}: {e:?}", cfg.name()))?;
+    let mut res = Results::new();
+    let tm = type_map(&compiled.sierra_program.program);
+    for (name, test) in &compiled.metadata.named_tests {
+        if test.ignored || gas_observing(name) {
+            continue;
+        }
+        // a test may return a value: only pointer-free results are comparable between configurations
+        let comparable = compiled
+            .sierra_program
+            .program
+            .funcs
+            .iter()
+            .find(|f| f.id.debug_name.as_ref().map(|n| n.as_str() == name.as_str()).unwrap_or(false))
+            .map(|f| {
+                f.signature
+                    .ret_types
+                    .iter()
+                    .filter(|t| tm.get(&t.id).map(|(g, _)| !IMPLICITS.contains(&g.as_str())).unwrap_or(true))
+                    .all(|t| result_ok(&tm, t.id))
+            })
+            .unwrap_or(true);
+        if !comparable {
+            continue;
+        }
+        let gas = if cfg.gas.is_some() { Some(run::AVAILABLE_GAS) } else { None };
+        let r = vcommon::catch(std::panic::AssertUnwindSafe(|| {
+            let f = runner.find_function(name).map_err(|e| format!("{e:?}"))?;
+            let (mut hp, ctx) = runner
+                .prepare_starknet_context(f, vec![], gas, StarknetState::default())
+                .map_err(|e| format!("{e:?}"))?;
+            hp.run_resources = RunResources::new(run::MAX_STEPS);
+            runner.run_function_with_prepared_starknet_context(f, &mut hp, ctx).map_err(|e| format!("{e:?}"))
+        }));
+        let obs = match r {
+            Ok(Ok(res)) => match res.value {
+                RunResultValue::Success(cells) => Obs::Success(cells.iter().map(|f| f.to_bigint()).collect()),
+                RunResultValue::Panic(data) => Obs::Panic(data.iter().map(|f| f.to_bigint()).collect()),
+            },
+            Ok(Err(e)) => Obs::Error(e.chars().take(300).collect()),
+            Err(e) => Obs::Error(format!("runner panicked: {e} at {}", vcommon::last_panic_location())),
+        };
+        res.insert((format!("{prefix}{name}"), vec![]), obs);
+    }
+    let _ = (Arg::Value(Felt252::from(0)),);
+    Ok(res)
+}
+
+// ------------------------------------------------------------------------------------------
+fn run_leg<F: Fn(&Config, usize) -> Result<Results, String> + Sync>(configs: &[Config], f: F) -> Vec<LegRun> {
+    let out = std::sync::Mutex::new(vec![]);
+    let next = std::sync::atomic::AtomicUsize::new(0);
+    std::thread::scope(|sc| {
+        for _ in 0..configs.len().min(12) {
+            sc.spawn(|| loop {
+                let k = next.fetch_add(1, std::sync::atomic::Ordering::SeqCst);
+                if k >= configs.len() {
+                    break;
+                }
+                let t = std::time::Instant::now();
+                let r = match vcommon::catch(std::panic::AssertUnwindSafe(|| f(&configs[k], k))) {
+                    Ok(r) => r,
+                    Err(e) => Err(format!("panicked: {e} at {}", vcommon::last_panic_location())),
+                };
+                out.lock().unwrap().push((k, LegRun { cfg: configs[k].clone(), results: r, secs: t.elapsed().as_secs_f64() }));
+            });
+        }
+    });
+    let mut v = out.into_inner().unwrap();
+    v.sort_by_key(|x| x.0);
+    v.into_iter().map(|x| x.1).collect()
+}
+
+fn cells_show(c: &[BigInt]) -> String {
+    format!("[{}]", c.iter().map(|x| x.to_string()).collect::<Vec<_>>().join(", "))
+}
+
+/// Compares every configuration with the first one.
+fn compare(leg: &str, runs: &[LegRun], failures: &mut Vec<serde_json::Value>, stats: &mut serde_json::Map<String, serde_json::Value>) {
+    let mut items = 0;
+    let mut compared = 0;
+    let mut inconclusive = 0;
+    let mut errors = vec![];
+    let mut not_applicable = vec![];
+    for class in [false, true] {
+      let runs: Vec<&LegRun> = runs.iter().filter(|r| r.cfg.gas.is_some() == class).collect();
+      if runs.is_empty() {
+          continue;
+      }
+      let base = match &runs[0].results {
+        Ok(r) => r,
+        Err(e) => {
+            failures.push(serde_json::json!({"leg": leg, "why": "the reference configuration failed", "config_a": runs[0].cfg.name(), "error": e}));
+            continue;
+        }
+      };
+      items += base.len();
+      for r in &runs[1..] {
+        match &r.results {
+            Err(e) => {
+                errors.push(e.clone());
+                // the legacy (non-linear) gas solver cannot solve every valid program: a set-up
+                // failure of that solver is "configuration not applicable", not a result
+                if r.cfg.gas == Some(Solver::NonLinear) && (e.contains("FailedGasCalculation") || e.contains("gas_info.rs")) {
+                    not_applicable.push(r.cfg.name());
+                    continue;
+                }
+                failures.push(serde_json::json!({
+                    "leg": leg, "why": "a configuration cannot compile / set up what the reference configuration runs",
+                    "config_a": runs[0].cfg.name(), "config_b": r.cfg.name(), "error": e}));
+            }
+            Ok(res) => {
+                let mut n_fail = 0;
+                for (key, a) in base {
+                    let Some(b) = res.get(key) else {
+                        n_fail += 1;
+                        if n_fail <= 3 {
+                            failures.push(serde_json::json!({
+                                "leg": leg, "why": "item missing under a configuration", "item": key.0, "args": cells_show(&key.1),
+                                "config_a": runs[0].cfg.name(), "config_b": r.cfg.name()}));
+                        }
+                        continue;
+                    };
+                    compared += 1;
+                    // a run that hit the step limit under one configuration is inconclusive
+                    let lim = |o: &Obs| matches!(o, Obs::Error(e) if e.contains("RunResources") || e.contains("UnfinishedExecution") || e.contains("steps"));
+                    if lim(a) || lim(b) {
+                        inconclusive += 1;
+                        continue;
+                    }
+                    if a != b {
+                        n_fail += 1;
+                        if n_fail <= 3 {
+                            failures.push(serde_json::json!({
+                                "leg": leg, "why": "results differ between two configurations",
+                                "item": key.0, "args": cells_show(&key.1),
+                                "config_a": runs[0].cfg.name(), "result_a": a.show(),
+                                "config_b": r.cfg.name(), "result_b": b.show()}));
+                        }
+                    }
+                }
+            }
+        }
+      }
+    }
+    // the runs that ended in an error under the first configuration (same under all, or reported above)
+    let err_items: Vec<serde_json::Value> = runs
+        .iter()
+        .find_map(|r| r.results.as_ref().ok())
+        .map(|res| {
+            res.iter()
+                .filter_map(|(k, o)| match o {
+                    Obs::Error(e) => Some(serde_json::json!({"item": k.0, "error": e})),
+                    _ => None,
+                })
+                .take(8)
+                .collect()
+        })
+        .unwrap_or_default();
+    stats.insert(
+        leg.to_string(),
+        serde_json::json!({
+            "items": items, "comparisons": compared, "inconclusive_step_limit": inconclusive,
+            "configs": runs.iter().map(|r| serde_json::json!({"config": r.cfg.name(), "secs": r.secs,
+                 "items": r.results.as_ref().map(|x| x.len()).unwrap_or(0),
+                 "successes": r.results.as_ref().map(|x| x.values().filter(|o| matches!(o, Obs::Success(_))).count()).unwrap_or(0),
+                 "panics": r.results.as_ref().map(|x| x.values().filter(|o| matches!(o, Obs::Panic(_))).count()).unwrap_or(0),
+                 "errors": r.results.as_ref().map(|x| x.values().filter(|o| matches!(o, Obs::Error(_))).count()).unwrap_or(0),
+            })).collect::<Vec<_>>(),
+            "config_errors": errors, "nonlinear_solver_not_applicable": not_applicable, "run_errors": err_items,
+        }),
+    );
+}
+
+pub fn main_c05(out: &Path, tier: &str, seed: u64) {
+    std::fs::create_dir_all(out.join("src")).unwrap();
+    let configs = matrix(tier);
+    let mut failures: Vec<serde_json::Value> = vec![];
+    let mut stats = serde_json::Map::new();
+    let mut samples = vec![];
+
+    // ---- generated programs ----
+    let (n_progs, n_vecs) = if tier == "thorough" { (300, 12) } else { (60, 10) };
+    let mut gstats = crate::genp::Stats::default();
+    let (progs, vectors, _) = crate::generate_crate(seed, 500, n_progs, n_vecs, &mut gstats);
+    let gen_runs = run_leg(&configs, |cfg, k| leg_gen(out, cfg, k, &progs, &vectors));
+    compare("gen", &gen_runs, &mut failures, &mut stats);
+    // the reference semantics has no configuration parameter: the interpreter's answer must be the
+    // answer under EVERY configuration
+    let mut ref_checked = 0;
+    let mut ref_bad = 0;
+    for r in &gen_runs {
+        if let Ok(res) = &r.results {
+            for (pi, p) in progs.iter().enumerate() {
+                let mut it = Interp::new(p);
+                let fname = format!("::{}", p.fn_name(p.entry()));
+                for args in &vectors[pi] {
+                    let mut cells = vec![];
+                    for a in args {
+                        a.flatten(&mut cells);
+                    }
+                    if let Some(obs) = res.get(&(fname.clone(), cells.clone())) {
+                        ref_checked += 1;
+                        let e = it.run(p.entry(), args);
+                        if !crate::agrees(&e, obs) && !matches!(e, Outcome::Stuck(_)) {
+                            ref_bad += 1;
+                            if ref_bad <= 3 {
+                                failures.push(serde_json::json!({
+                                    "leg": "gen", "why": "result under a configuration differs from the source semantics",
+                                    "item": fname, "args": cells_show(&cells), "config_b": r.cfg.name(),
+                                    "result_b": obs.show(), "expected": format!("{:?}", e), "source": p.cairo()}));
+                            }
+                        }
+                    }
+                }
+            }
+        }
+    }
+    if let Some(p) = progs.first() {
+        samples.push(serde_json::json!({"leg": "gen", "program": p.cairo().chars().take(1500).collect::<String>(),
+            "args": vectors[0].iter().take(2).map(|v| v.iter().map(|a| a.show()).collect::<Vec<_>>()).collect::<Vec<_>>()}));
+    }
+
+    // ---- examples ----
+    let ex_runs = run_leg(&configs, |cfg, _| leg_examples(cfg));
+    compare("examples", &ex_runs, &mut failures, &mut stats);
+    if let Ok(r) = &ex_runs[0].results {
+        for (k, v) in r.iter().take(3) {
+            samples.push(serde_json::json!({"leg": "examples", "item": k.0, "args": cells_show(&k.1), "result": v.show()}));
+        }
+    }
+
+    // ---- tests ----
+    // tests need gas (syscalls, #[available_gas]): only the gas-enabled configurations
+    let gas_cfgs: Vec<Config> = configs.iter().filter(|c| c.gas.is_some()).cloned().collect();
+    let t_runs = run_leg(&gas_cfgs, |cfg, _| leg_tests(cfg, "/repo/tests/bug_samples", "bug_samples:"));
+    compare("bug_samples", &t_runs, &mut failures, &mut stats);
+    if let Ok(r) = &t_runs[0].results {
+        for (k, v) in r.iter().take(2) {
+            samples.push(serde_json::json!({"leg": "bug_samples", "item": k.0, "result": v.show()}));
+        }
+    }
+    if tier == "thorough" {
+        // the core library's own tests need gas (#[available_gas]): only the gas configurations
+        let c_runs = run_leg(&gas_cfgs, |cfg, _| leg_tests(cfg, "/repo/corelib", "corelib:"));
+        compare("corelib_tests", &c_runs, &mut failures, &mut stats);
+    }
+
+    let total_items: u64 = stats.values().map(|v| v["items"].as_u64().unwrap_or(0)).sum();
+    let total_cmp: u64 = stats.values().map(|v| v["comparisons"].as_u64().unwrap_or(0)).sum();
+    let summary = serde_json::json!({
+        "configurations": configs.iter().map(|c| c.name()).collect::<Vec<_>>(),
+        "legs": stats, "items": total_items, "comparisons": total_cmp,
+        "gen_programs": progs.len(), "gen_constructs": gstats.constructs,
+        "reference_checked": ref_checked, "reference_disagreements": ref_bad,
+        "failures": failures.len(), "samples": samples,
+    });
+    std::fs::write(out.join("c05_summary.json"), serde_json::to_string_pretty(&summary).unwrap()).unwrap();
+    std::fs::write(out.join("c05_failures.json"), serde_json::to_string_pretty(&failures).unwrap()).unwrap();
+    println!(
+        "h01 c05: {} configurations, {} items, {} pairwise comparisons, {} vs reference semantics, {} failures",
+        configs.len(),
+        total_items,
+        total_cmp,
+        ref_checked,
+        failures.len()
+    );
 }
